@@ -84,28 +84,47 @@ def null_guard(f):
 
 import hashlib
 SKIP_KEYS = {"id", "loc", "range", "previousDecl", "isUsed", "isReferenced", "mangledName", "isImplicit", "parentDeclContextId", "valueCategory"}
-def shape(n):
+def local_names(f):
+    """parameters and local variables of a function in order of declaration -> canonical names (renaming a
+    local variable or a parameter is not a change)"""
+    ren = {}
+    def g(x):
+        if x.get("kind") in ("ParmVarDecl", "VarDecl") and x.get("name") and x.get("storageClass") != "static" and x["name"] not in ren:
+            ren[x["name"]] = "v%d" % len(ren)
+    walk(f, g)
+    return ren
+
+def shape(n, ren=None):
     """location-free, id-free rendering of an AST subtree: kinds, operators, names, literals, types"""
     if isinstance(n, dict):
+        if ren is None and n.get("kind") in ("FunctionDecl", "CXXMethodDecl"):
+            ren = local_names(n)
         items = []
         for k in sorted(n.keys()):
             if k in SKIP_KEYS: continue
             v = n[k]
+            if k == "name" and ren and n.get("kind") in ("ParmVarDecl", "VarDecl") and v in ren:
+                items.append("name=%s" % ren[v]); continue
             if k == "referencedDecl":
-                items.append("ref=%s" % v.get("name"))
+                nm_ = v.get("name")
+                items.append("ref=%s" % (ren.get(nm_, nm_) if (ren and v.get("kind") in ("ParmVarDecl", "VarDecl")) else nm_))
             elif k == "type":
-                items.append("type=%s" % (v.get("qualType") if isinstance(v, dict) else v))
+                tq = (v.get("qualType") if isinstance(v, dict) else v)
+                if isinstance(tq, str) and " at /" in tq: tq = re.sub(r" at /[^):]*/", " at ", tq)
+                items.append("type=%s" % tq)
             elif k == "inner":
-                items.append("[" + ",".join(shape(c) for c in v if not (isinstance(c, dict) and c.get("kind") in ("FullComment", "ParagraphComment", "TextComment"))) + "]")
+                items.append("[" + ",".join(shape(c, ren) for c in v if not (isinstance(c, dict) and c.get("kind") in ("FullComment", "ParagraphComment", "TextComment"))) + "]")
             elif isinstance(v, (dict, list)):
-                items.append("%s=%s" % (k, shape(v)))
+                items.append("%s=%s" % (k, shape(v, ren)))
             elif isinstance(v, str) and re.match(r"^0x[0-9a-f]+$", v):
                 continue                      # AST node addresses (referencedMemberDecl, ...)
             else:
+                if isinstance(v, str) and " at /" in v:      # "(unnamed struct at /path/file.c:10:5)": the path is not part of the shape
+                    v = re.sub(r" at /[^):]*/", " at ", v)
                 items.append("%s=%s" % (k, v))
         return "{" + ";".join(items) + "}"
     if isinstance(n, list):
-        return "[" + ",".join(shape(c) for c in n) + "]"
+        return "[" + ",".join(shape(c, ren) for c in n) + "]"
     return str(n)
 
 # Functions that the translator covers *in pieces* in every preprocessor configuration (every straight-line
@@ -114,16 +133,17 @@ def shape(n):
 # segments and loops.  A rewrite inside a piece re-proves or fails its lemma; a changed loop bound changes the hash.
 SKELETON = re.compile(r"^(_skinny(128|64)_parallel_(en|de)crypt_vec(128|256)|_mantis_parallel_crypt_vec128|skinny128_ecb_encrypt_(four|eight)|skinny64_ecb_encrypt_eight|mantis_ecb_encrypt_eight)$")
 def skeleton(f):
-    sig = [shape(c) for c in f.get("inner", []) if c.get("kind") == "ParmVarDecl"]
+    ren = local_names(f)
+    sig = [shape(c, ren) for c in f.get("inner", []) if c.get("kind") == "ParmVarDecl"]
     body = body_of(f)
     items = []
     for st in (body.get("inner", []) if body else []):
         k = st.get("kind")
         if k in ("ForStmt", "WhileStmt", "DoStmt"):
             inner = st.get("inner", [])
-            items.append("LOOP:%s(%s)" % (k, ",".join(shape(c) for c in inner[:-1])))     # everything but the body
+            items.append("LOOP:%s(%s)" % (k, ",".join(shape(c, ren) for c in inner[:-1])))     # everything but the body
         elif k == "ReturnStmt":
-            items.append("RETURN(%s)" % shape(st))
+            items.append("RETURN(%s)" % shape(st, ren))
         else:
             if not items or items[-1] != "SEG": items.append("SEG")
     return "SKELETON{%s;%s;type=%s}" % (",".join(sig), ",".join(items), f.get("type", {}).get("qualType"))
@@ -138,6 +158,46 @@ def text_shape(path):
     t = re.sub(r"//[^\n]*", " ", t)
     t = re.sub(r"\s+", " ", t)
     return hashlib.sha256(t.encode()).hexdigest()[:16]
+
+# Arduino functions that the translator covers as whole functions (not hashed) or in pieces in the one configuration the
+# port has (skeleton hash): see tools/gen_manifest.py
+ARD_WHOLE = re.compile(r"^(skinny(128|64)_(sbox|inv_sbox|LFSR2|LFSR3)|mantis_(sbox|update_tweak|update_tweak_inverse|shift_rows|shift_rows_inverse|mix_columns|unpack_rotated_block)|swapModes|setTweak)$")
+ARD_PIECES = re.compile(r"^(encryptBlock|decryptBlock|setTK1|setTK2|setTK3|xorTK1)$")
+def ast_file_shape(path, repo):
+    """hash of a C / C++ source file built from the shapes of its function definitions (local names canonical, comments,
+    layout and declaration order of functions irrelevant) and of its file-scope variables; falls back to the text hash"""
+    try:
+        if path.endswith(".cpp"):
+            adir = os.path.dirname(path)
+            tu = TU(path, ["-std=gnu++11", "-I" + adir, "-I" + os.path.join(adir, "utility")], cxx=True)
+        else:
+            tu = TU(path, ["-std=c99", "-I" + os.path.join(repo, "include"), "-I" + os.path.join(repo, "src")])
+    except Exception:
+        return text_shape(path)
+    is_ard = path.endswith(".cpp")
+    base = os.path.basename(path)
+    items = []
+    def rec(n, owner=""):
+        for c in n.get("inner", []) if isinstance(n, dict) else []:
+            if not isinstance(c, dict): continue
+            k = c.get("kind")
+            if k in ("FunctionDecl", "CXXMethodDecl", "CXXConstructorDecl", "CXXDestructorDecl"):
+                if body_of(c) is None: continue
+                nm = c.get("name", "")
+                if nm.startswith("__"): continue                      # compiler / libc internals
+                if is_ard and base in ("Skinny128.cpp", "Skinny64.cpp", "Mantis8.cpp"):
+                    if ARD_WHOLE.match(nm) and (base == "Mantis8.cpp" or not nm in ("swapModes", "setTweak")): continue
+                    if ARD_PIECES.match(nm):
+                        items.append("%s::%s=%s" % (owner, nm, skeleton(c))); continue
+                items.append("%s::%s=%s" % (owner, nm, shape(c)))
+            elif k in ("NamespaceDecl", "LinkageSpecDecl"):
+                rec(c, owner)
+            elif k == "CXXRecordDecl":
+                rec(c, c.get("name", owner))
+            elif k == "VarDecl" and not c.get("name", "").startswith("__"):
+                items.append("var %s=%s" % (c.get("name"), shape(c)))
+    rec(tu.ast)
+    return hashlib.sha256("\n".join(sorted(items)).encode()).hexdigest()[:16]
 
 def collect(repo):
     base = ["-std=c99", "-I" + os.path.join(repo, "include"), "-I" + os.path.join(repo, "src"), "-msse2", "-mavx2"]
@@ -233,7 +293,7 @@ def collect(repo):
     import glob
     for pat in ("arduino/libraries/Skinny/*.cpp", "arduino/libraries/Skinny/*.h", "arduino/libraries/Skinny/utility/*.h", "examples/*.c", "examples/*.h"):
         for pth in sorted(glob.glob(os.path.join(repo, pat))):
-            facts["text_shapes"][os.path.relpath(pth, repo)] = text_shape(pth)
+            facts["text_shapes"][os.path.relpath(pth, repo)] = ast_file_shape(pth, repo) if pth.endswith((".c", ".cpp")) else text_shape(pth)
     # de-duplicate globals coming from headers included in several TUs
     seen = set(); gl = []
     for g in facts["globals"]:
